@@ -27,7 +27,7 @@ def templates(rng, k):
   w = rng.choice([1, 4, 8, 8, 16, 33])
   c1, c2 = rng.randrange(1 << min(w, 8)), rng.randrange(1 << min(w, 8))
   op1, op2 = rng.choice(['+', '^', '|']), rng.choice(['+', '^', '&', '-'])
-  t = k % 12
+  t = k % 13
   I = [('i', ('bits', w)), ('m', ('bits', w))]
   decl = [f's.i = InPort( {w} )', f's.m = InPort( {w} )']
   n = f'K{k}'
@@ -71,6 +71,15 @@ def templates(rng, k):
     L = decl + [f's.a = Wire( {w} )', f's.b = Wire( {w} )', f's.d = OutPort( {w} )']
     cyc = L + ['@update_once', 'def P():', f'  s.a @= s.i {op1} {c1}', '  s.d @= s.b', '@update', 'def Q():', '  s.b @= s.a']
     return 'once-in-cycle', mk(n, cyc), None, I, 'sched-error'
+  if t == 12:  # one component, a loop through N >= 10 update blocks that all branch, wired directly (no net blocks in between)
+    N = rng.randrange(10, 16)
+    L = decl + [f's.x = [ Wire( {w} ) for _ in range({N}) ]', f's.o = OutPort( {w} )']
+    cyc = L[:]
+    for j in range(N):
+      src_ = f's.x[{(j - 1) % N}]'
+      cyc += ['@update', f'def B{j}():', f'  if s.m[0]:', f'    s.x[{j}] @= ( {src_} | s.i ) & s.m' if j == 0 else f'    s.x[{j}] @= {src_} & s.m', '  else:', f'    s.x[{j}] @= {src_} & s.i']
+    cyc += ['@update', 'def Z():', f'  s.o @= s.x[{N - 1}]']
+    return 'loop-of-many-branchy-blocks', mk(n, cyc), None, I, 'fixed'
   if t == 10:  # a convergent loop one of whose edges exists ONLY as an explicit U(b) < U(c) constraint (no signal on it)
     L = decl + [f's.x = Wire( {w} )', f's.y = Wire( {w} )', f's.z = Wire( {w} )', f's.o = OutPort( {w} )']
     cyc = L + ['@update', 'def A():', '  s.x @= ( s.y | s.i ) & s.z', '@update', 'def B():', '  s.y @= s.x & s.m',
@@ -109,7 +118,8 @@ class RingNode( Component ):
       def up_branchy():
         {f2}
 '''
-    L = decl + [f's.node = [ RingNode( 0 if i == 0 else ( 2 if i % 3 == 2 else 1 ) ) for i in range({K}) ]', f's.o = OutPort( {w} )', 'connect( s.o, s.node[0].out )']
+    allbr = rng.random() < 0.35          # rings whose nodes all branch (runs of consecutive branchy blocks)
+    L = decl + [f's.node = [ RingNode( 0 if i == 0 else ( 2 if ( i % 3 == 2 or {allbr} ) else 1 ) ) for i in range({K}) ]', f's.o = OutPort( {w} )', 'connect( s.o, s.node[0].out )']
     order = list(range(K)); rng.shuffle(order)          # construction order of the connections is not the ring order
     for i in order:
       L += [f'connect( s.node[{i}].out, s.node[{(i + 1) % K}].in_ )', f'connect( s.node[{i}].msk, s.m )']
@@ -262,7 +272,7 @@ def run(ctx):
   from pymtl3.dsl.errors import UpblkCyclicError
   quick = ctx.tier == 'quick'
   rng = ctx.rng
-  ntempl = 72 if quick else 720
+  ntempl = 78 if quick else 780
   n = ntempl + (150 if quick else 2500)
   cycles = 6 if quick else 16
   coq_cases, coq_meta = [], []
